@@ -195,6 +195,10 @@ func Builtin() []Doc {
 		{MT: "image/svg+xml", Name: "builtin/contentstyletype-xsl", Src: "builtin", Data: []byte(`<svg xmlns="http://www.w3.org/2000/svg" contentStyleType="text/xsl"><style> path { fill : #ff0000 } </style><path style=" stroke : #000000 " d="M 1 1 L 2 2"/></svg>`)},
 		{MT: "image/svg+xml", Name: "builtin/contentstyletype-css", Src: "builtin", Data: []byte(`<svg xmlns="http://www.w3.org/2000/svg" contentStyleType="text/css" contentScriptType="application/ecmascript"><style> path { fill : #ff0000 } </style><path style=" stroke : #000000 " d="M 1 1 L 2 2"/></svg>`)},
 		{MT: "text/css", Name: "builtin/datauri-params", Src: "builtin", Data: []byte(`a { background : url("data:image/svg+xml;charset=utf8;x=1;y=2;z=3,%3Csvg xmlns='http://www.w3.org/2000/svg'%3E%3C/svg%3E") } b { src : url(data:font/woff2;charset=binary;v=2;w=3;base64,AAEC) }`)},
+		// long runs of tokens that the minifier drops (each one a zero-length write on its way out)
+		{MT: "text/html", Name: "builtin/150-comments", Src: "builtin", Data: []byte("<p>a</p>\n" + strings.Repeat("<!-- c -->\n", 150) + "<p>b</p>")},
+		{MT: "text/xml", Name: "builtin/150-comments", Src: "builtin", Data: []byte("<r>a\n" + strings.Repeat("<!-- c -->\n", 150) + "<b/></r>")},
+		{MT: "image/svg+xml", Name: "builtin/150-comments", Src: "builtin", Data: []byte("<svg xmlns=\"http://www.w3.org/2000/svg\">\n" + strings.Repeat("<!-- c -->\n", 150) + "<path d=\"M0 0\"/></svg>")},
 		{MT: "text/css", Name: "builtin/datauri", Src: "builtin", Data: []byte(`a { background : url("data:image/svg+xml;base64,PHN2ZyB4bWxucz0iaHR0cDovL3d3dy53My5vcmcvMjAwMC9zdmciPjxwYXRoIGQ9Ik0gMTAgMTAgTCAyMCAyMCIvPjwvc3ZnPg==") ; color : #ffffff }`)},
 	}
 }
